@@ -223,3 +223,82 @@ func lifecycleOne(c *vlib.Ctx, st *ledgerStats, g *guard, ver int, size uint64, 
 		c.Infra("lifecycle: the end of a v%d contract with file size %d is not accepted", ver, size)
 	}
 }
+
+// runWrapScenario: the "wrap" entries for v2 siafund parents, on the state they are about. Below EphemeralOutputHeight the
+// value an input states for a parent created in the same block is taken on trust. Block 1 of the shape in which that era
+// lasts: transaction 1 splits the genesis siafund output in two; transaction 2 spends both new outputs stating the values
+// (x, 2^64 - x + 1) and creates one output of 1 SF. The state's siafund pool is raised to 1000 SC (see Extremes.tla).
+func runWrapScenario(c *vlib.Ctx, st *ledgerStats, exts []ext) {
+	g := newGuard()
+	for _, e := range exts {
+		if e.Fam != "wrap" || e.T != "sfi.parent.val" {
+			continue
+		}
+		e := e
+		if p, val := vlib.Recover(func() { wrapOne(c, st, g, e) }); p {
+			c.Infra("wrap scenario %v failed in the harness: %v", e, val)
+		}
+	}
+}
+
+func wrapOne(c *vlib.Ctx, st *ledgerStats, g *guard, e ext) {
+	x, ok := map[string]uint64{"1": 1, "2^32": 1 << 32, "2^63": 1 << 63, "2^64-2": math.MaxUint64 - 1, "2^64-1": math.MaxUint64}[e.X]
+	if !ok {
+		st.mu.Lock()
+		st.unknown["wrap value "+e.X] = true
+		st.mu.Unlock()
+		return
+	}
+	sim := chain.NewSim(c10Shapes()["ephlate"])
+	keys := keyMap(sim)
+	ctx := sim.NewBlockCtx()
+	split := chain.AbsTx{Ver: 2, Sfi: []chain.AbsSfIn{{ID: chain.SID{chain.SFO, 0, 0, 1, 0}, Claim: "A", Auth: "ok"}},
+		Sfo: []chain.AbsOut{{Val: 3000, Addr: "B"}, {Val: 4000, Addr: "A"}}, Tag: "sf"}
+	if err := ctx.Add(split); err != nil {
+		c.Infra("wrap scenario: cannot build the split: %v", err)
+		return
+	}
+	t1 := ctx.V2[0]
+	d0, d1 := t1.EphemeralSiafundOutput(0), t1.EphemeralSiafundOutput(1)
+	d0.SiafundOutput.Value, d1.SiafundOutput.Value = x, 1-x // uint64 arithmetic: the pair wraps to 1
+	t2 := types.V2Transaction{
+		SiafundInputs: []types.V2SiafundInput{
+			{Parent: d0, ClaimAddress: sim.K.Addr("A"), SatisfiedPolicy: types.SatisfiedPolicy{Policy: sim.K.Policy("B"), Signatures: make([]types.Signature, 1)}},
+			{Parent: d1, ClaimAddress: sim.K.Addr("A"), SatisfiedPolicy: types.SatisfiedPolicy{Policy: sim.K.Policy("A"), Signatures: make([]types.Signature, 1)}},
+		},
+		SiafundOutputs: []types.SiafundOutput{{Value: 1, Address: sim.K.Addr("A")}},
+	}
+	m := &mctx{sim: sim, cs: sim.CS, child: 1, ver: 2, k: 1, keys: keys}
+	m.cs.SiafundTaxRevenue = types.Siacoins(1000)
+	m.b, m.bs = sim.Seal(nil, []types.V2Transaction{t1, t2}), sim.Supplement(nil)
+	m.resign()
+	m.reseal()
+	lo := m.exercise(g, func(entry string, ok bool) {
+		st.mu.Lock()
+		st.perEntry[entry]++
+		if ok {
+			st.perEntryOK[entry]++
+		}
+		st.mu.Unlock()
+	})
+	st.mu.Lock()
+	st.mutants++
+	st.perFam["wrap"]++
+	st.distinct[fmt.Sprint("wrap-scenario", e.X)] = true
+	if lo != nil && lo.Accepted {
+		st.appliedReverted++
+	}
+	st.mu.Unlock()
+	if lo != nil && lo.O.bad() {
+		site := ledgerSite(lo.O.Stack)
+		if site == "" {
+			site = lo.Entry
+		}
+		kind := "panics: " + lo.O.Panic
+		if lo.O.TimedOut {
+			kind = fmt.Sprintf("has not returned after %v", longDeadline)
+		}
+		c.Violation("ledger/"+site+"/"+e.class(), fmt.Sprintf("%s %s on a block (height 1, v2 allowed, below EphemeralOutputHeight, siafund pool 1000 SC) whose second transaction spends the two siafund outputs the first creates stating the values %d and %d (they wrap to the 1 SF it creates)", lo.Entry, kind, x, 1-x),
+			map[string]any{"entry": lo.Entry, "extreme": e, "panic": lo.O.Panic, "stack": lo.O.Stack, "block": mustJSON(m.b), "state": mustJSON(m.cs)})
+	}
+}
